@@ -659,15 +659,19 @@ def check_hash_input_coverage(ck, R):
                               "%s is read from another object than the one whose __code__ is hashed (before/after unwrapping decorators): for a "
                               "functools.wraps-decorated function the wrapper's defaults are hashed, so editing a default keeps the version" % attr, outer.where(st))
     # the code of the *unwrapped* function is hashed
-    unw = [w for w in outer.stmts(ast.While) if "__wrapped__" in A.norm(w.test)]
+    # some loop replaces the hashed object by its __wrapped__ (whatever the spelling of the loop condition)
+    unw = [s_ for s_ in outer.stmts(ast.Assign) if isinstance(s_.value, ast.Attribute) and s_.value.attr == "__wrapped__" and isinstance(s_.value.value, ast.Name)
+           and any(isinstance(t, ast.Name) and t.id == s_.value.value.id for t in s_.targets) and outer.enclosing(s_, ast.While) is not None]
     ck.ob(R, outer.key(None, "unwrap"), bool(unw), "decorator wrappers are unwrapped before hashing" if unw else
           "fn_code_hash no longer unwraps __wrapped__ chains", outer.where())
     # MementoFunction.__init__ stores the code hash unless a version is declared
     ini = FA(ck, MF + ".__init__")
     chs = [c for c in ini.calls("fn_code_hash")]
-    okc = len(chs) == 1 and A.norm(chs[0].args[0]) == "fn" and A.norm(A.kwarg(chs[0], "salt")) == "version_salt" and A.norm(A.kwarg(chs[0], "environment")) == "ENVIRONMENT_HASH_BYTES"
+    FCH = CH + ".fn_code_hash"
+    okc = len(chs) == 1 and A.norm(_call_arg(ck, chs[0], FCH, "fn")) == "fn" and A.norm(_call_arg(ck, chs[0], FCH, "salt")) == "version_salt" \
+        and A.norm(_call_arg(ck, chs[0], FCH, "environment")) == "ENVIRONMENT_HASH_BYTES"
     st = [s for s in ini.stmts(ast.Assign) if any(A.dotted(t) == "self.code_hash" for t in s.targets)]
-    okc = okc and len(st) == 1 and "call:fn_code_hash" in ini.deps(st[0].value)
+    okc = okc and bool(st) and all("call:fn_code_hash" in ini.deps(s_.value) for s_ in st)
     ck.ob(R, ini.key(None, "code-hash-stored"), okc, "the function's code hash (with salt and environment) is stored at definition" if okc else
           "MementoFunction.__init__ does not store fn_code_hash(fn, salt, environment) as code_hash", ini.where())
 
@@ -718,7 +722,9 @@ def check_rule_kinds_contribute(ck, R):
           "the variable rule is not built with _serialize_value(ref)", tr.where(ctor))
     sv = FA(ck, CH + ".GlobalVariableHashRule._serialize_value")
     d = [c for c in sv.calls("dumps")]
-    oks = len(d) == 1 and any(A.call_attr(x) == "encode_arg" and [A.norm(a) for a in x.args] == ["var"] for x in A.calls_in(d[0]))
+    p0 = sv.fi.params[0] if sv.fi.params else "var"
+    oks = len(d) == 1 and any(isinstance(x, ast.Call) and A.call_attr(x) == "encode_arg" and len(x.args) == 1 and sv.xnorm(x.args[0], sv.nodes(d[0])[0]) == p0
+                              for a_ in d[0].args[:1] for x in _flow(sv, a_).values())
     ck.ob(R, sv.key(None, "codec"), oks, "values are serialised through the argument codec" if oks else
           "_serialize_value does not serialise MementoCodec.encode_arg(var)", sv.where())
 
@@ -753,7 +759,7 @@ def check_digest_consumes_rules(ck, R):
                "traversal, filtered only by `hash is None`; the returned version is that digest", 4)
     fa = FA(ck, MF + "._recompute_version")
     coll = fa.one([c for c in fa.calls("collect_transitive_dependencies")], "collect_transitive_dependencies call")
-    res = A.kwarg(coll, "result")
+    res = _call_arg(ck, coll, CH + ".MementoFunctionHashRule.collect_transitive_dependencies", "result")
     ck.need(isinstance(res, ast.Name), "_recompute_version: result= is not a local set")
     loops = [n for n in fa.cfg.nodes if n.kind == "for" and any(A.call_attr(c) == "compute_hash" for c in A.calls_in(n.ast))]
     lp = fa.one(loops, "loop over hash rules")
@@ -836,7 +842,9 @@ def check_digest_consumes_rules(ck, R):
     okr = len(rets) == 1 and "call:hexdigest" in fa.deps(rets[0].value) and "call:sha256" in fa.deps(rets[0].value)
     ck.ob(R, fa.key(None, "returns-digest"), okr, "the version is the digest" if okr else "the returned version does not derive from the digest", fa.where())
     root = fa.one(fa.calls("MementoFunctionHashRule"), "self rule")
-    okroot = A.norm(A.kwarg(root, "obj")) == "self" and A.norm(A.kwarg(root, "first_level")) == "True" and A.norm(A.kwarg(coll, "root_fn")) == "self"
+    MRI = CH + ".MementoFunctionHashRule.__init__"
+    CTD = CH + ".MementoFunctionHashRule.collect_transitive_dependencies"
+    okroot = A.norm(_call_arg(ck, root, MRI, "obj")) == "self" and A.norm(_call_arg(ck, root, MRI, "first_level")) == "True" and A.norm(_call_arg(ck, coll, CTD, "root_fn")) == "self"
     ck.ob(R, fa.key(root, "self-rule-root"), okroot, "the traversal starts at the function's own rule" if okroot else
           "the traversal does not start from the function's own rule (obj=self, first_level=True, root_fn=self)", fa.where(root))
 
@@ -1184,10 +1192,15 @@ def check_determinism_taint(ck, R):
     for modname in ("code_hash", "memento", "configuration", "reference"):
         mod = ck.repo.module(modname)
         for fi in mod.all_funcs():
-            ups = [c for c in A.body_calls(fi.node) if (A.call_attr(c) == "update" and "sha" in A.norm(A.call_recv(c))) or A.call_dotted(c) == "hashlib.sha256"]
-            if not ups:
+            cand = [c for c in A.body_calls(fi.node) if (A.call_attr(c) == "update" and isinstance(A.call_recv(c), ast.Name)) or A.call_dotted(c) == "hashlib.sha256"]
+            if not cand:
                 continue
             fa = FA(ck, fi)
+            # a digest sink: hashlib.sha256(<data>) or <h>.update(<data>) where <h> was made by hashlib (whatever it is called)
+            ups = [c for c in cand if A.call_dotted(c) == "hashlib.sha256" or "sha" in A.norm(A.call_recv(c))
+                   or (fa.nodes(c) and any(x.startswith("callq:hashlib.") for x in fa.deps(A.call_recv(c), fa.nodes(c)[0])))]
+            if not ups:
+                continue
             for c in ups:
                 if not c.args:
                     continue
@@ -1585,8 +1598,7 @@ def check_update_protocol(ck, R):
     inc = ini.nodes_all(ini.calls("increment_global_fn_generation"))
     reg = ini.nodes_all(ini.calls("register_function"))
     ok_r = bool(inc) and bool(reg) and all(ini.cfg.must_pass(inc, i) for i in reg)
-    g2 = [ini.enclosing(c, ast.If) for c in ini.calls("increment_global_fn_generation")]
-    ok_r = ok_r and all(x is not None and A.norm(x.test) == "register_fn" for x in g2)
+    # (registering implies bumping is what must_pass says; the bump needs no particular guard of its own)
     ck.ob(R, ini.key(None, "registration-bumps"), ok_r, "defining a function bumps the generation before it is registered" if ok_r else
           "a newly defined function does not bump the global generation: other functions keep versions computed before it existed", ini.where())
     uf = FA(ck, MF + "._update_fn_reference")
@@ -2047,7 +2059,9 @@ def check_dotted_names(ck, R):
     ck.ob(R, fa.key(None, "own-source"), okg, "the function's own source is parsed" if okg else "list_dotted_names does not parse inspect.getsource(fn)", fa.where())
     ini = FA(ck, MF + ".__init__")
     dd = [s for s in ini.stmts(ast.Assign) if any(A.dotted(t) == "self.detected_dependencies" for t in s.targets)]
-    okdd = len(dd) == 1 and A.norm(dd[0].value) == "list_dotted_names(self.src_fn) if auto_dependencies else set()"
+    oc = ini.outcomes("self.detected_dependencies") if dd else None
+    okdd = bool(oc) and {txt for (_l, txt) in oc} == {"list_dotted_names(self.src_fn)", "set()"} \
+        and all((("auto_dependencies", True) in l_) == (txt != "set()") and (("auto_dependencies", False) in l_) == (txt == "set()") for (l_, txt) in oc)
     ck.ob(R, ini.key(None, "detected"), okdd, "detected dependencies = dotted names of the source function (when enabled)" if okdd else
           "detected_dependencies is not list_dotted_names(self.src_fn) under auto_dependencies", ini.where())
 
@@ -2067,15 +2081,19 @@ def check_graph_derivation(ck, R):
     ck.ob(R, t.key(None), ok, "transitive = every rule with a function, except self" if ok else
           "transitive_memento_fn_dependencies is not {rule.memento_fn for all rules with a function, minus self}", t.where())
     d = FA(ck, "dependency_graph.DependencyGraph.direct_memento_fn_dependencies")
+    import re as _re
     txt = A.norm(d.node)
-    okd = "rule.first_level" in txt and "rule.memento_fn != self.memento_fn" in txt and "self._all_rules" in txt
+    mvar = _re.search(r"\b(\w+)\.first_level\b", txt)
+    rv = mvar.group(1) if mvar else "rule"
+    okd = mvar is not None and (("%s.memento_fn != self.memento_fn" % rv) in txt or ("self.memento_fn != %s.memento_fn" % rv) in txt) and "self._all_rules" in txt
     ck.ob(R, d.key(None), okd, "direct = first-level rules with a function, except self" if okd else
           "direct_memento_fn_dependencies is not derived from first_level rules", d.where())
     ini = FA(ck, "dependency_graph.DependencyGraph.__init__")
-    oki = any(A.norm(s) == "self._all_rules = self.memento_fn.hash_rules()" for s in ini.stmts(ast.Assign))
+    oki = any(any(A.dotted(t) == "self._all_rules" for t in s_.targets) and ini.nodes(s_) and ini.xnorm(s_.value, ini.nodes(s_)[0]) in ("self.memento_fn.hash_rules()", "memento_fn.hash_rules()")
+              for s_ in ini.stmts(ast.Assign))
     ck.ob(R, ini.key(None), oki, "the graph reads the function's current hash rules" if oki else "DependencyGraph does not read memento_fn.hash_rules()", ini.where())
     n = FA(ck, CH + ".NonMementoFunctionHashRule.collect_transitive_dependencies")
-    okf = all(A.norm(A.kwarg(c, "first_level")) == "False" for c in n.calls("_visit_dependency")) and bool(n.calls("_visit_dependency"))
+    okf = all(A.norm(_call_arg(ck, c, CH + ".HashRule._visit_dependency", "first_level")) == "False" for c in n.calls("_visit_dependency")) and bool(n.calls("_visit_dependency"))
     ck.ob(R, n.key(None, "first-level-false"), okf, "names reached through a plain helper are not direct" if okf else
           "dependencies reached through a plain helper are marked first_level", n.where())
     hr = FA(ck, MF + ".hash_rules")
